@@ -8,6 +8,7 @@
 #ifndef GAUSSIANPREDICTION_H
 #define GAUSSIANPREDICTION_H
 
+#include <BayesFilters/AtomicFlag.h>
 #include <BayesFilters/ExogenousModel.h>
 #include <BayesFilters/GaussianMixturePrediction.h>
 #include <BayesFilters/Skippable.h>
@@ -49,7 +50,7 @@ protected:
 
 
 private:
-    bool skip_ = false;
+    AtomicFlag skip_;
 };
 
 #endif /* GAUSSIANPREDICTION_H */
